@@ -8,15 +8,27 @@ Static corruptions of a FRESH-by-mtime entry:
                  loadable payload that prints a tell-tale marker; a 5000-byte line without newline
     dir          a directory in place of the file
     unreadable   mode 000 with the DAC capabilities dropped
+    flip b       exactly one bit of the payload (the bytes after the two version lines) inverted.
+                 thorough: every bit of every payload byte of both entries; quick: every bit of payload
+                 bytes 0..63 and, for every later byte i, the single bit i mod 8.  Each flip runs in a
+                 forked child (address space limited, alarm set) with script_cache_check /
+                 code_cache_check wrapped by recorders.  A flip after which the check function hands out
+                 a CODE OBJECT is "loaded flipped code: not judged" (undetectable damage; whatever the
+                 child then does, including dying, is only counted).  Otherwise the entry is detectably
+                 damaged: no exception may escape the run (key ...:bit-flip:escaped-<ExcType>), the run
+                 must equal the uncached run, the entry must be valid afterwards and the next run match.
 Dynamic faults (crashx shims bound into xonsh.codecache in a forked child): the caching run is
 killed before every file operation, torn at write lengths, or gets one failing call; then the NEXT
 run is judged.
 Oracle: the run equals the uncached run (never an escaping exception, never the foreign marker), the
 entry is valid afterwards (where rebuilding is possible) and a following cached run matches too."""
 
+import json
 import os
 import pickle
+import resource
 import shutil
+import signal
 import time
 import warnings
 
@@ -293,11 +305,152 @@ def _fault_case(rig, entry, pre, fault):
     return out
 
 
+# ---------------------------------------------------------------------- single-bit flips
+FLIP_ALL_BITS_BELOW = 64  # quick tier: every bit of payload bytes < 64, then bit (i mod 8) of byte i
+
+
+def flip_bits(entry, thorough):
+    n = len(_PRISTINE[entry]) - core.header_len(_PRISTINE[entry])
+    if thorough:
+        return list(range(n * 8))
+    return [i * 8 + b for i in range(min(n, FLIP_ALL_BITS_BELOW)) for b in range(8)] + [i * 8 + i % 8 for i in range(FLIP_ALL_BITS_BELOW, n)]
+
+
+def _flip_child(rig, entry, bit):
+    data = _PRISTINE[entry]
+    h = core.header_len(data)
+    b = bytearray(data)
+    b[h + bit // 8] ^= 1 << (bit % 8)
+    _clean(rig)
+    p = _put(rig, entry, bytes(b))
+    side = os.path.join(rig.root, "side-flip")
+    fd = os.open(side, os.O_WRONLY | os.O_CREAT | os.O_TRUNC, 0o644)
+    _settle()
+    with warnings.catch_warnings():
+        warnings.simplefilter("ignore", DeprecationWarning)
+        pid = os.fork()
+    if pid == 0:
+        try:
+            def say(d):
+                os.write(fd, (json.dumps(d) + "\n").encode())
+
+            with open("/proc/self/statm") as f:
+                vm = int(f.read().split()[0]) * os.sysconf("SC_PAGE_SIZE")
+            lim = vm + (768 << 20)  # a flipped size field must end in MemoryError, not in gigabytes of RSS
+            resource.setrlimit(resource.RLIMIT_AS, (lim, lim))
+            signal.signal(signal.SIGALRM, signal.SIG_DFL)
+            signal.alarm(30)
+            cc = rig.cc
+
+            def wrap(name):
+                orig = getattr(cc, name, None)
+                if orig is None:
+                    return
+
+                def w(*a, **k):
+                    say({"ev": "check-enter", "fn": name})
+                    try:
+                        r = orig(*a, **k)
+                    except BaseException as e:  # noqa: BLE001
+                        say({"ev": "check-raised", "exc": type(e).__name__})
+                        raise
+                    try:
+                        used, obj = bool(r[0]), type(r[1]).__name__
+                    except Exception:  # noqa: BLE001
+                        used, obj = None, "?"
+                    say({"ev": "check-return", "used": used, "obj": obj})
+                    return r
+
+                setattr(cc, name, w)
+
+            wrap("script_cache_check")
+            wrap("code_cache_check")
+            o1 = _real(rig, entry)
+            say({"ev": "run1", "out": o1})
+            say({"ev": "kind", "k": core.entry_kind(p)})
+            if core.entry_kind(p) not in ("dir", "unreadable", "absent") and rig.get_tick(p) is None:
+                rig.set_tick(p, ENTRY_TICK)
+            o2 = _real(rig, entry)
+            say({"ev": "run2", "out": o2})
+        except BaseException as e:  # noqa: BLE001
+            try:
+                os.write(fd, (json.dumps({"ev": "harness-exception", "exc": f"{type(e).__name__}: {e}"[:200]}) + "\n").encode())
+            except BaseException:  # noqa: BLE001
+                pass
+        finally:
+            os._exit(0)
+    os.close(fd)
+    _, status = os.waitpid(pid, 0)
+    evs = []
+    with open(side, "rb") as f:
+        for ln in f.read().split(b"\n"):
+            if ln.strip():
+                try:
+                    evs.append(json.loads(ln))
+                except ValueError:
+                    pass  # a line cut short by the death of the child
+    return os.waitstatus_to_exitcode(status), evs
+
+
+def _flip_case(rig, entry, bit):
+    rc, evs = _flip_child(rig, entry, bit)
+    h = core.header_len(_PRISTINE[entry])
+    out = {"class": "bit-flip", "viols": [], "skipped": None, "flip": None}
+    checks = [e for e in evs if e["ev"] in ("check-return", "check-raised")]
+    first = checks[0] if checks else None
+    by = {e["ev"]: e for e in evs}
+    case = {"part": 2, "entry": entry, "corruption": ["flip", bit], "payload_byte": bit // 8, "bit": bit % 8, "file_offset": h + bit // 8, "child_exit": rc, "check_events": [e for e in evs if e["ev"].startswith("check")][:4]}
+    exp = _expected(rig, entry)
+
+    def V(clause, sig, observed, expected):
+        out["viols"].append({"key": f"{clause}:{entry}:bit-flip:{sig}", "clause": clause, "case": dict(case), "observed": observed, "expected": expected})
+
+    if first is not None and first["ev"] == "check-return" and first["used"] and first["obj"] == "code":
+        out["flip"] = "loaded flipped code: not judged" + (" (child died / timed out)" if rc != 0 else "")
+        out["skipped"] = "bit flip still unmarshals to a code object"
+        return out
+    if "harness-exception" in by:
+        raise common.ToolError(f"flip child {entry}/{bit}: {by['harness-exception']}")
+    if "run1" not in by:
+        # the interpreter itself died (signal / alarm / rlimit) before the first run returned, without
+        # any loaded code running: nothing xonsh could guard against - counted, not judged
+        out["flip"] = f"interpreter died before the run returned (exit {rc}): not judged"
+        out["skipped"] = out["flip"]
+        return out
+    o1 = by["run1"]["out"]
+    if first is None:
+        out["flip"] = "check function not entered"
+    elif first["ev"] == "check-raised":
+        out["flip"] = "unmarshalling raised " + first["exc"]
+    elif first["used"]:
+        out["flip"] = "check handed out a non-code object (" + first["obj"] + ")"
+    else:
+        out["flip"] = "entry rejected"
+    if o1["escaped"]:
+        V("damaged-entry-ignored", "escaped-" + o1["escaped"], o1, exp)
+        return out
+    if not core.same_outcome(o1, exp):
+        sig = "loaded-non-code-" + first["obj"] if (first is not None and first["ev"] == "check-return" and first["used"]) else _sig(o1, exp)
+        V("damaged-entry-ignored", sig, o1, exp)
+        return out
+    k = by.get("kind", {}).get("k")
+    if k != "ok":
+        V("damaged-entry-is-rebuilt", f"left-{k}", k, "ok")
+    o2 = by.get("run2", {}).get("out")
+    if o2 is None:
+        raise common.ToolError(f"flip child {entry}/{bit} died (exit {rc}) after a good first run: {evs[-2:]}")
+    if not core.same_outcome(o2, exp):
+        V("run-after-damaged-entry", _sig(o2, exp), o2, exp)
+    return out
+
+
 def _run_item(item):
     rig = _rig()
     entry, cls, arg = item
     if cls == "fault":
         return _fault_case(rig, entry, arg[0], tuple(arg[1]))
+    if cls == "flip":
+        return _flip_case(rig, entry, arg)
     return _static_case(rig, entry, cls, arg)
 
 
@@ -311,6 +464,7 @@ def _items(ctx):
         items += [(entry, "zero", k) for k in range(0, n, 16)]
         items += [(entry, "foreign", v) for v in FOREIGN]
         items += [(entry, "dir", None), (entry, "unreadable", None)]
+        items += [(entry, "flip", b) for b in flip_bits(entry, ctx.thorough)]
         for pre in PRESTATES[entry]:
             for f in crashx.fault_cases(_LOGS[(entry, pre)], all_tears=ctx.thorough):
                 items.append((entry, "fault", [pre, list(f)]))
@@ -326,6 +480,7 @@ def run_part(ctx):
     skipped = {}
     raised = {}
     left = {}
+    flips = {}
     nviol = 0
     for it, r in zip(items, res):
         ctx.add_violations(r["viols"])
@@ -338,6 +493,9 @@ def run_part(ctx):
             raised[r["faulted_run_raised"]] = raised.get(r["faulted_run_raised"], 0) + 1
         if "left" in r:
             left[r["left"]] = left.get(r["left"], 0) + 1
+        if r.get("flip"):
+            fk = f"{it[0]}: {r['flip']}"
+            flips[fk] = flips.get(fk, 0) + 1
     ctx.sample({"part": 2, "entry": "script", "corruption": ["trunc", core.header_len(_PRISTINE["script"]) + 7]})
     ctx.sample({"part": 2, "entry": "code", "fault": items[-2][2]})
     evaluated = len(items) - sum(skipped.values())
@@ -356,6 +514,8 @@ def run_part(ctx):
             "faulted_runs_that_raised (not judged)": raised,
             "entry_state_left_by_fault": left,
             "raw_violations": nviol,
+            "bit_flips": "every bit of every payload byte (both entries)" if ctx.thorough else f"every bit of payload bytes 0..{FLIP_ALL_BITS_BELOW - 1}, then bit (i mod 8) of every later byte i (both entries)",
+            "bit_flip_outcomes": dict(sorted(flips.items())),
             "cache_hit_observed (valid entry with tell-tale payload is executed)": _LIVE,
         },
     }
